@@ -151,9 +151,16 @@ CONSTANTS Family, NRandom, ShardK, ShardN, HistLen
 OpSeq == SetToSeq(Ops)
 RandomHist(i) == [j \in 1..HistLen |-> RandomElement(Ops)]
 SmallHists == {<<a, b, c>> : a \in Ops, b \in Ops, c \in Ops}
+\* diverged timelines: define, go back to an earlier snapshot, define something else (or the same in another order) - the tables
+\* shrink and grow again, so whatever position a call site remembered now belongs to another name
+ScriptDefs == {Op("def", n, sg) : n \in FNames, sg \in Sigs \ {"cpp"}}
+Timelines == {<<Op("get", "", ""), a, Op("set", "", "1"), b>> : a \in ScriptDefs, b \in ScriptDefs}
+             \cup {<<Op("get", "", ""), a1, a2, Op("set", "", "1"), b1, b2>> : a1 \in ScriptDefs, a2 \in ScriptDefs, b1 \in ScriptDefs, b2 \in ScriptDefs}
+             \cup {<<a0, Op("get", "", ""), a1, Op("get", "", ""), Op("set", "", "1"), b1, Op("set", "", "2"), b2>> :
+                       a0 \in ScriptDefs, a1 \in ScriptDefs, b1 \in ScriptDefs, b2 \in ScriptDefs}
 HRecord(id, ops) == [id |-> id, ops |-> ops, expect |-> Run(ops)]
-Histories == IF Family = "small"
-             THEN LET hs == SetToSeq(SmallHists)
+Histories == IF Family \in {"small", "timelines"}
+             THEN LET hs == SetToSeq(IF Family = "small" THEN SmallHists ELSE Timelines)
                       idx == SelectSeq([i \in 1..Len(hs) |-> i], LAMBDA i : i % ShardN = ShardK)
                   IN [j \in 1..Len(idx) |-> HRecord(idx[j], hs[idx[j]])]
              ELSE [i \in 1..NRandom |-> HRecord((ShardK + 1) * 1000000 + i, RandomHist(i))]
